@@ -139,6 +139,39 @@ theorem cleared_attaches_to_its_order (i : Inst) (market : Nat) (hash sep id : L
   unfold processCleared
   rw [cleared_order_ref_recovers_id hash sep id hh hs]
 
+/-! ### the bet-id step after the lookup by reference: an update is never attributed to another bet's order -/
+
+/-- whichever order the update goes to, it is the order found by reference only if that order has no bet id yet or carries the
+    update's bet id, and otherwise an order that carries the update's bet id: never an order of another bet -/
+theorem update_never_misattributed (byRefBet : Option Nat) (bet : Nat) (known : List Nat) :
+    (pickByBet byRefBet bet known = some none → byRefBet = none ∨ byRefBet = some bet) ∧
+    (∀ b, pickByBet byRefBet bet known = some (some b) → b = bet ∧ bet ∈ known) := by
+  unfold pickByBet
+  cases byRefBet with
+  | none => exact ⟨fun _ => Or.inl rfl, fun b h => (by cases h)⟩
+  | some r =>
+    by_cases e : r = bet
+    · subst e
+      simp
+    · simp only [ne_eq, e, not_false_eq_true, if_true]
+      by_cases hk : known.contains bet = true
+      · simp only [hk, if_true]
+        refine ⟨fun h => (by cases h), fun b h => ?_⟩
+        cases h
+        exact ⟨rfl, List.contains_iff_mem.mp hk⟩
+      · simp only [hk, Bool.false_eq_true, if_false]
+        exact ⟨fun h => (by cases h), fun b h => (by cases h)⟩
+
+/-- known finding F20 in the model: the update of a bet that replaced another one (known reference, other bet id) is skipped as
+    long as no local order carries its bet id - and being skipped changes nothing, so it is skipped at every later snapshot too -/
+theorem replaced_bet_unknown_is_skipped (b1 bet : Nat) (known : List Nat) (hne : b1 ≠ bet) (hk : bet ∉ known) :
+    pickByBet (some b1) bet known = none := by
+  unfold pickByBet
+  simp [hne, hk]
+
+example : pickByBet (some 501) 502 [501] = none ∧ pickByBet (some 501) 502 [501, 502] = some (some 502) ∧
+    pickByBet (some 501) 501 [501] = some none ∧ pickByBet none 7 [] = some none := by decide
+
 /-- splitting at the default separator instead (the round-6 seeded change C19-m7) loses every order created with another
     separator: the reference holds no `-`, so the "last part" is the whole reference -/
 example : ("0123456789abc.1234".toList.splitOn '-').getLast? = some "0123456789abc.1234".toList := by decide +kernel
